@@ -83,6 +83,11 @@ pub fn regex_tokinizer(tokinizer: &mut Tokinizer) {
 }
 
 pub fn language_tokinizer(tokinizer: &mut Tokinizer) {
+    /* The words of a comment are not a part of the calculation, the comment must own its area before the language based parsers */
+    if let Some(items) = tokinizer.config.token_parse_regex.get("comment") {
+        comment_regex_parser(tokinizer.config, tokinizer, items);
+    }
+
     let lowercase_data = tokinizer.data.to_lowercase();
     for func in LANGUAGE_BASED_TOKEN_PARSER.iter() {
         func(tokinizer.config, tokinizer, &lowercase_data);
